@@ -98,7 +98,9 @@ def gen_recipe(rng: Rng, tier: str, idx: int) -> dict:
             "meta": rng.chance(0.15),
         }
         if kind == "ext":
-            e["ext_file"] = rng.choice(["src0.bin", "src1.bin", "sub/src2.bin"])
+            # source files elsewhere in the sandbox; "sub/<name>.data" has the very name the destination's data file will
+            # have, in another directory (a model loaded from one place and saved to another)
+            e["ext_file"] = rng.choice(["src0.bin", "src1.bin", "sub/src2.bin", "sub/@DATA@"])
             e["ext_pad"] = rng.choice([0, 0, 3, 64])
         inits.append(e)
     # one tensor object shared by two initializers
@@ -144,6 +146,9 @@ def gen_recipe(rng: Rng, tier: str, idx: int) -> dict:
         # symlink_dir: its parent directory is a symlink
         "preexisting": rng.weighted([("none", 8), ("both", 4), ("data_only", 2), ("model_only", 2), ("symlink_model", 2), ("symlink_dir", 1)]),
     }
+    for e in inits:
+        if e.get("ext_file") == "sub/@DATA@":
+            e["ext_file"] = "sub/" + fname + ".data"
     return {"idx": idx, "inits": inits, "uninit": uninit, "cfg": cfg, "extras": extras}
 
 
